@@ -323,6 +323,28 @@ int main(int argc, char** argv) {
         }
         if (!L.live.empty()) out += " LEAK";
       }
+    } else if (op == "mpdocf") {
+      // slot-level tie of the FILTERED deserializeMsgPack: mpdocf <limit> <pre 0|1> <fail> <filter-json-hex> <hex> [geometry]
+      int lim, pre; string fail, fhex, hex; is >> lim >> pre >> fail >> fhex >> hex;
+      { string g1; if (is >> g1) { int b_, c_, so_; unsigned long long mx_; is >> b_ >> c_ >> so_ >> mx_;
+          if (atoi(g1.c_str()) != ARDUINOJSON_POOL_CAPACITY || b_ != ARDUINOJSON_INITIAL_POOL_COUNT || c_ != ARDUINOJSON_SLOT_ID_SIZE || so_ != (int)StringNode::sizeForLength(0) || mx_ != (unsigned long long)StringNode::maxLength) { std::cout << "geo-mismatch\n"; continue; } } }
+      string in = unhex(hex); Block b(in); CountingReader r{b.p, in.size()};
+      JsonDocument fd; fd.set(true); DeserializationOption::Filter fopt(fd.as<JsonVariantConst>());
+      { string f = unhex(fhex); deserializeJson(fd, f, DeserializationOption::NestingLimit(20)); }
+      {
+        Spy L(0); L.logging = true; GLOG.clear();
+        {
+          JsonDocument d(&L);
+          if (pre) deserializeJson(d, "[1,\"abc\",{\"k\":2,\"abc\":12345678901}]");
+          GLOG.clear();
+          if (fail[0] == 'a') L.failAt.insert(L.calls + atol(fail.c_str() + 1));
+          if (fail[0] == 'f') L.failFrom = L.calls + atol(fail.c_str() + 1);
+          DeserializationError e = deserializeMsgPack(d, r, fopt, DeserializationOption::NestingLimit((uint8_t)lim));
+          out = string(e.c_str()) + " " + showS(d.as<JsonVariantConst>()) + " " + std::to_string(r.pos) + " o=" + (d.overflowed() ? "1" : "0") + "|" + HLOG();
+          L.failAt.clear(); L.failFrom = -1; L.logging = false;
+        }
+        if (!L.live.empty()) out += " LEAK";
+      }
     } else if (op == "jsondocf") {
       // slot-level tie of the FILTERED deserializeJson: like jsondoc, with a filter document (built with another allocator)
       // jsondocf <cfg> <limit> <pre 0|1> <fail: - | a<k> | f<k>> <filter-hex> <hex> [geometry]
